@@ -20,6 +20,19 @@ Theorem C15_sessions_start_safe : forall c script stack succ ed t,
   safe c (i_e (setup_env c script stack succ ed t)).
 Proof. exact setup_env_safe. Qed.
 
+(* the safe environment is kept by every step, whatever its status ... *)
+Theorem C15_step_keeps_environment_safe : forall low_s c e pc local, safe c e -> safe c (fst (fst (step_script low_s c e pc local))).
+Proof. exact step_script_keeps_safe. Qed.
+
+(* ... so a whole session - any number of debugger steps incl. the scriptSig -> scriptPubKey -> P2SH redeem script switches and the taproot
+   commitment phase, whatever each step returns - never reaches a crash outcome (this is the theorem whose proof attempt exposed the
+   assert(!stack.empty()) abort repaired in /repo 737d35f) *)
+Theorem C15_session_never_crashes : forall low_s tap_tweak_ok sha256 c n v, safe c (i_e v) ->
+  forall x, snd (Session.dbg_step low_s tap_tweak_ok sha256 c (steps low_s tap_tweak_ok sha256 c n v)) <> SCrash x.
+Proof. exact session_never_crashes. Qed.
+
 Print Assumptions C15_configuration_never_indexes_outside_the_funding_tx.
+Print Assumptions C15_step_keeps_environment_safe.
+Print Assumptions C15_session_never_crashes.
 Print Assumptions C15_step_never_crashes.
 Print Assumptions C15_sessions_start_safe.
